@@ -70,6 +70,20 @@ def oracle(case, obs):
                 if o["nout"] > 1:
                     out.append(("C18", "C18/iterable/no-backpressure", "%d items outstanding at the consumer" % o["nout"]))
                     break
+    # stop() called by the consumer from inside its callback: nothing may follow the element that triggered it until the
+    # next start()
+    if "stop_on" in case:
+        hit = None
+        for step, (a, o) in enumerate(zip([None] + case["actions"], obs)):
+            if hit is not None and a is not None and (a[0] == "start" or (a[0] == "multi" and "start" in a[1])):
+                break
+            for (t, v) in o["deliv"]:
+                if hit is not None:
+                    out.append(("C18", "C18/emit-after-stop/%s/stop-inside-callback" % sp["k"],
+                                "step %d: the consumer called stop() when it was handed %r, yet %r was delivered afterwards (no start() in between)" % (step, case["stop_on"], v)))
+                    return out
+                if v == case["stop_on"]:
+                    hit = step
     # nothing new after stop: a step taken while stopped (other than start) delivers nothing new,
     # except the completion of the cycle in progress (none of our sources emits at the END of a cycle)
     stopped = True
@@ -117,7 +131,11 @@ def gen(rng, tier):
             # back-to-back calls without a turn of the loop (the polling coroutine has not started / noticed yet)
             acts.append(["multi", rng.choice([["start", "stop", "start"], ["stop", "start"], ["start", "start"],
                                               ["start", "stop"], ["stop", "start", "stop", "start"]])])
-    return {"src": sp, "sink": rng.choice(["ctl", "ctl", "sync"]), "actions": acts}
+    c = {"src": sp, "sink": rng.choice(["ctl", "ctl", "sync"]), "actions": acts}
+    if rng.random() < 0.25:
+        c["stop_on"] = rng.choice([1, 2, 3]) if k == "periodic" else rng.choice([10, 11, 12])
+        c["stop_via"] = rng.choice(["src", "node"])
+    return c
 
 
 def exhaustive(tier):
@@ -131,6 +149,13 @@ def exhaustive(tier):
                 if seq[0] not in (0, 4):
                     continue
                 cases.append({"src": sp, "sink": sink, "actions": [alphabet[i] for i in seq]})
+    # the consumer stops the source from inside its callback (at the 1st / 2nd element), every shorter word
+    for sp, vals in (({"k": "periodic", "poll": 2}, (1, 2)), ({"k": "iterable", "items": [10, 11, 12, 13]}, (10, 11))):
+        for sink in ("ctl", "sync"):
+            for v in vals:
+                for via in ("src", "node"):
+                    for seq in itertools.product(range(4), repeat=n - 2):
+                        cases.append({"src": sp, "sink": sink, "stop_on": v, "stop_via": via, "actions": [["start"]] + [alphabet[i] for i in seq]})
     return cases
 
 
@@ -162,7 +187,7 @@ def run(prop, tier, seed, replay=None):
                 out.violation(sig, msg, {"case": c})
                 nfind += 1
             break
-    modelled = [(c, o) for (c, o) in cos if not any(a[0] == "multi" for a in c["actions"])]
+    modelled = [(c, o) for (c, o) in cos if not any(a[0] == "multi" for a in c["actions"]) and "stop_on" not in c]
     oracle_only = len(cos) - len(modelled)
     cos_all, cos = cos, modelled
     mism, errors = correspondence("C18", cos, fixed=True)
@@ -178,7 +203,8 @@ def run(prop, tier, seed, replay=None):
     if not proof["ok"]:
         out.violation("C18/proof/%s" % proof["failing"], "proof obligation no longer checks: %s" % proof["failing"],
                       {"theorem_or_file": proof["failing"], "log": proof["log"][-2000:]}, no_input=True)
-    cov = {"evaluations": len(cos_all), "oracle_only_cases_with_back_to_back_calls": oracle_only, "distinct_nontrivial": len(nontriv),
+    cov = {"evaluations": len(cos_all), "oracle_only_cases_with_back_to_back_calls_or_stop_inside_callback": oracle_only,
+           "cases_with_stop_inside_callback": sum(1 for (c, o) in cos_all if "stop_on" in c), "distinct_nontrivial": len(nontriv),
            "rule": "exhaustive start/stop/ack/advance words of length 5 (quick) or 7 (thorough) over from_periodic and from_iterable with controlled and synchronous sinks, plus random longer histories (stop immediately followed by start is favoured); non-trivial = at least one delivery",
            "exhaustive": False, "traces_validated_against_impl": len(cos) - len(mism), "disagreements_checked": len(mism),
            "samples": [cos[i][0] for i in (0, len(cos) // 2) if cos]}
